@@ -18,10 +18,12 @@ TECHNIQUE = ('Coq proof (any formally real commutative ring, in particular R and
              'modes as integer ratios) against lentil.zernike_fit / zernike_compose / zernike_remove')
 LEVEL_TEXT = ('Theorems in coq/theories/Properties/C12.v for every mask, every list of modes (any subset, any order), both '
               'normalisation flags, default or caller-supplied coordinates and every coefficient vector, under linear '
-              'independence of the masked modes; the model follows zernike.py (mask factor, coefficient k <-> Noll k+1, '
-              'reshape/ravel, keyword passing and re-composition with the requested modes in zernike_remove) and is run on '
-              'the same mode samples as lentil on every check; numpy pinv is replaced by a Gauss solver whose answer is '
-              'checked against the normal equations inside the model.')
+              'independence of the masked modes: fit(compose(c)) = c, remove = least-squares projection (residual fits to 0, '
+              'idempotent, span -> 0, untouched outside the mask), fit linear, uniqueness of the least-squares solution. The '
+              'model follows zernike.py (mask factor, coefficient k <-> Noll k+1, reshape/ravel, keyword passing and '
+              're-composition with the requested modes in zernike_remove) and is run on the same mode samples as lentil on '
+              'every check; numpy pinv is replaced by a Gauss solver whose answer is checked against the normal equations '
+              'inside the model (soundness proved; statements about the executed instance are conditional on it returning).')
 LEVEL_NOTE = ('Trusted: Coq kernel, extraction, harness; np.linalg.pinv and einsum are oracles with the contract "returns '
               'the least-squares solution" (observed through the tie, tolerance 1e-8 relative, Gram condition number '
               'bounded by the generator); the Zernike polynomials themselves are property C11 (here: any family). '
